@@ -36,6 +36,8 @@ def one(spec, tier="quick"):
     pid, k = spec.split("/")
     if k.startswith("r2_"):
         src = f"/tmp/seed/{pid}/out2/{k[3:]}"
+    elif k.startswith("r7_"):
+        src = f"/tmp/seed/{pid}/out7/{k[3:]}"
     elif k.startswith("r6_"):
         src = f"/tmp/seed/{pid}/out6/{k[3:]}"
     elif k.startswith("r5_"):
